@@ -35,4 +35,53 @@ theorem ratio_eq : Src.C03.conv_ratio = ((CONV_FS_AP / CONV_FS_LF : Nat) : Int) 
 
 theorem taper_eq : Src.C03.conv_taper = ((CONV_OVERLAP / CONV_TAPER_DIV : Nat) : Int) := by decide
 
+/-! ### `_writemetadata_ap`: the header of one shank's AP file, as the source assigns it
+
+One iteration of the loop over shanks, translated as the sequence of assignments to `meta_shank`; `applyEvAp` gives each
+its meaning on the model's key → value map (`d[k][0] = x` fails when the key is not a list, as in Python); folding the
+generated sequence over the original header gives exactly `Split.splitMeta`. -/
+
+open Split in
+def applyEvAp (chns : List Nat) (r : Except Split.Err Split.Meta) (e : String × List Int) : Except Split.Err Split.Meta :=
+  match r with
+  | .error x => .error x
+  | .ok m =>
+    match e with
+    | ("acq0", [v]) => m.setHead "acqApLfSy" v
+    | ("sns0", [v]) => m.setHead "snsApLfSy" v
+    | ("nsaved", [v]) => .ok (m.set "nSavedChans" (.int v))
+    | ("size", [v]) => .ok (m.set "fileSizeBytes" (.int v))
+    | ("subset_orig", []) =>
+      match subsetToks chns with
+      | .error x => .error x
+      | .ok toks => .ok (m.set "snsSaveChanSubset_orig" (.subset toks))
+    | ("subset_to", [v]) => .ok (m.set "snsSaveChanSubset" (.subset [Grp.range 0 v.toNat]))
+    | ("not_original", []) => .ok (m.set "original_meta" (.atom "False"))
+    | ("shank", [v]) => .ok (m.set "NP2.4_shank" (.int v))
+    | _ => .ok m
+
+theorem foldl_error (chns : List Nat) (x : Split.Err) (l : List (String × List Int)) :
+    l.foldl (applyEvAp chns) (.error x) = .error x := by
+  induction l with
+  | nil => rfl
+  | cons a l ih => simpa [List.foldl, applyEvAp] using ih
+
+theorem ap_meta_eq (m : Split.Meta) (chns : List Nat) (sh size : Nat) :
+    (Src.C03.ap_meta chns.length size ((sh % 10 : Nat) : Int)).foldl (applyEvAp chns) (.ok m) = Split.splitMeta m chns sh size := by
+  unfold Src.C03.ap_meta Split.splitMeta
+  simp only [List.foldl, applyEvAp]
+  cases h1 : m.setHead "acqApLfSy" ((chns.length : Int) - 1) with
+  | error x => simp [foldl_error]
+  | ok m1 =>
+    simp only []
+    cases h2 : m1.setHead "snsApLfSy" ((chns.length : Int) - 1) with
+    | error x => simp
+    | ok m2 =>
+      simp only []
+      cases h3 : Split.subsetToks chns with
+      | error x => simp
+      | ok toks =>
+        have h : ((chns.length : Int) - 1).toNat = chns.length - 1 := by omega
+        simp [h]
+
 end IblVerif.Tie.C03
